@@ -6,4 +6,5 @@ let all : (string * (Model.event list -> bool)) list = [
   ("C03", Model.chk_C03);
   ("C14", Model.chk_C14);
   ("C13", Model.chk_C13);
+  ("C11", Model.chk_C11);
 ]
